@@ -372,6 +372,9 @@ func (e *integEngine) runCLI(res *RunResult) *integEngine {
 	c.onEvent = e.onEvent
 	e.installHooks()
 	defer e.removeHooks()
+	if e.nstages > 0 {
+		defer installPassOrder(c)()
+	}
 	args := append([]string{"taskctl", "-c", file, "--output", "raw"}, e.w.CLIArgs...)
 	dr := &driverRec{Spec: DriverSpec{Kind: "cli", Target: strings.Join(e.w.CLIArgs, " ")}, Key: "0:cli", CallSeq: -1}
 	e.drivers = append(e.drivers, dr)
@@ -489,6 +492,9 @@ func RunIntegWorld(c *Ctl, prof *IntegProfile, w *IntegWorld, res *RunResult) *i
 	c.onEvent = e.onEvent
 	e.installHooks()
 	defer e.removeHooks()
+	if len(e.graphs) > 0 {
+		defer installPassOrder(c)()
+	}
 
 	// drivers
 	for i, d := range w.Drivers {
